@@ -255,6 +255,29 @@ def _to_value_nf(nf, c):
         raise AnalysisError(f"{c.qualname}.to_value not normalisable: {e}")
 
 
+STD_MODEL_TERMS = {
+    # class -> the model term its to_model() must build (over `self`): symbol and arguments agree with the JSON payload of to_value()
+    "hugr.std.collections.array.ArrayVal": "model.Apply('collections.array.const', [model.Literal(len(self.v)), self.ty.ty.to_model(), model.List([c0.to_model() for c0 in self.v])])",
+    "hugr.std.int.IntVal": "model.Apply('arithmetic.int.const', [model.Literal(self.width), model.Literal(self.v)])",
+    "hugr.std.float.FloatVal": "model.Apply('arithmetic.float.const_f64', [model.Literal(self.v)])",
+}
+
+
+def r7_std_model_terms(ctx) -> None:
+    """the model-export path of a std constant carries the same type parameters and elements as its JSON path"""
+    from ..rulekit import unold
+    for qual, want in STD_MODEL_TERMS.items():
+        try:
+            fn, m, c = ctx.locate(f"{qual}.to_model")
+        except Exception:
+            ctx.broken(f"anchor vanished: {qual}.to_model")
+        ps = ctx.paths(f"{qual}.to_model")
+        ok = bool(ps) and all(q.kind == "return" and not q.tests and unold(q.value) == want for q in ps)
+        ctx.check(ok, "C14.R7", f"{qual}.to_model", m.path, fn.lineno,
+                  f"{qual.split('.')[-1]}.to_model must export `{want}`: the width / size, the *element* type and every element, as the JSON payload does", fn,
+                  expected=want, found=unold(ps[0].value) if ps and ps[0].value is not None else "")
+
+
 def r6_sum_model(ctx) -> None:
     """the model term of a sum constant: all variant rows, then the field types of the *tagged* row, the tag, the field values"""
     from ..rulekit import unold
@@ -332,6 +355,8 @@ def run(ctx) -> None:
     r2_type_plumbing(ctx, nf)
     r3_std_constants(ctx, nf)
     r4_load_path(ctx, nf)
+    ctx.rule("C14.R7", "model export of std constants: symbol, type parameters and elements as in the JSON payload", floor=3)
+    r7_std_model_terms(ctx)
     ctx.rule("C14.R6", "model export of a sum constant: variant rows, field types of the tagged row, tag, values", floor=1)
     r6_sum_model(ctx)
     ctx.rule("C14.R5", "a reloaded value keeps the fields its type is computed from: S.deserialize ∘ X._to_serial is the identity on every init-field of every value class (shared with C02.R1)", floor=5)
